@@ -27,8 +27,10 @@ from typing import Final
 import numpy
 from docstring_inheritance import GoogleDocstringInheritanceMeta
 from numpy import add as _add
+from numpy import atleast_1d
 from numpy import atleast_2d
 from numpy import ndarray
+from numpy import newaxis
 from numpy import subtract as _subtract
 from numpy import tile
 
@@ -354,7 +356,37 @@ class _MultiplicationFunctionMaker(_OperationFunctionMaker):
         second_func = self._second_operand.func(input_value)
         second_jac = self._second_operand._jac(input_value)
 
+        scale_rows = self._scale_rows
         if self._operator == numpy.multiply:
-            return first_jac * second_func + second_jac * first_func
+            return scale_rows(first_jac, second_func) + scale_rows(
+                second_jac, first_func
+            )
 
-        return (first_jac * second_func - second_jac * first_func) / second_func**2
+        return scale_rows(
+            scale_rows(first_jac, second_func) - scale_rows(second_jac, first_func),
+            second_func**2,
+            numpy.divide,
+        )
+
+    @staticmethod
+    def _scale_rows(
+        jac: NumberArray,
+        output_value: OutputType,
+        operator: OperatorType = numpy.multiply,
+    ) -> NumberArray:
+        """Multiply (or divide) the rows of a Jacobian by the matching output values.
+
+        Args:
+            jac: The Jacobian, either 1D (gradient) or 2D.
+            output_value: The output value, either a number or a 1D array,
+                whose i-th component applies to the i-th row of the Jacobian.
+            operator: The operator, either multiplication or division.
+
+        Returns:
+            The scaled Jacobian.
+        """
+        output_value = atleast_1d(output_value)
+        if output_value.size == 1:
+            return operator(jac, output_value[0])
+
+        return operator(jac, output_value[:, newaxis])
